@@ -170,6 +170,10 @@ def _pure_test(e):
 def _names_only_test(e):
     if isinstance(e, (ast.Name, ast.Constant)):
         return True
+    if isinstance(e, ast.Attribute) and isinstance(e.value, ast.Name) and e.value.id != 'self' and e.attr.isupper():
+        return True                 # a constant of a module (`select.POLLIN`)
+    if isinstance(e, ast.BinOp) and isinstance(e.op, (ast.BitAnd, ast.BitOr, ast.BitXor)):
+        return _names_only_test(e.left) and _names_only_test(e.right)
     if isinstance(e, ast.Compare):
         return _names_only_test(e.left) and all(_names_only_test(c) for c in e.comparators)
     if isinstance(e, ast.BoolOp):
@@ -305,6 +309,80 @@ def apply_drops(fnode):
     new = clone(fnode)
     tr = _Drops()
     new.body = [tr.visit(s) for s in new.body]
+    if not tr.n:
+        return None
+    ast.fix_missing_locations(new)
+    return new
+
+
+# ---------------------------------------------------------------------------
+# loops over a literal tuple of places: `for lst in (self._read, self._write): if fd in lst: lst.remove(fd)` is the loop body once per place
+
+
+class _Unroll(ast.NodeTransformer):
+    def __init__(self):
+        self.n = 0
+
+    def visit_FunctionDef(self, n):
+        return n
+
+    visit_AsyncFunctionDef = visit_FunctionDef
+    visit_Lambda = visit_FunctionDef
+    visit_ClassDef = visit_FunctionDef
+
+    def visit_For(self, node):
+        self.generic_visit(node)
+        it = node.iter
+        if not (isinstance(node.target, ast.Name) and isinstance(it, (ast.Tuple, ast.List)) and 2 <= len(it.elts) <= 4 and not node.orelse):
+            return node
+        if not all(_path(e) and not isinstance(e, ast.Name) for e in it.elts):
+            return node
+        var = node.target.id
+        for st in node.body:
+            for w in ast.walk(st):
+                if isinstance(w, ast.Name) and w.id == var and isinstance(w.ctx, (ast.Store, ast.Del)):
+                    return node
+                if isinstance(w, (ast.FunctionDef, ast.AsyncFunctionDef, ast.Lambda, ast.ClassDef)):
+                    return node        # (a closure would capture the variable, not the place)
+        if _loop_jumps(node.body):
+            return node
+        out = []
+        for e in it.elts:
+            tr = _Subst({var: e}, set())
+            out.extend(tr.visit(s) for s in clone(node.body))
+        self.n += 1
+        return out
+
+
+def _loop_jumps(stmts):
+    """break / continue bound to the loop whose body *stmts* is"""
+    for s in stmts:
+        if isinstance(s, (ast.Break, ast.Continue)):
+            return True
+        if isinstance(s, (ast.For, ast.While, ast.AsyncFor, ast.FunctionDef, ast.AsyncFunctionDef, ast.ClassDef)):
+            if isinstance(s, (ast.For, ast.While, ast.AsyncFor)) and _loop_jumps(s.orelse):
+                return True
+            continue
+        for field in ('body', 'orelse', 'finalbody'):
+            if _loop_jumps(getattr(s, field, None) or []):
+                return True
+        if isinstance(s, ast.Try) and any(_loop_jumps(h.body) for h in s.handlers):
+            return True
+        if isinstance(s, ast.Match) and any(_loop_jumps(c.body) for c in s.cases):
+            return True
+    return False
+
+
+def apply_unroll(fnode):
+    if not any(isinstance(w, ast.For) and isinstance(w.iter, (ast.Tuple, ast.List)) for w in walk_no_defs(fnode)):
+        return None
+    new = clone(fnode)
+    tr = _Unroll()
+    body = []
+    for s in new.body:
+        r = tr.visit(s)
+        body.extend(r if isinstance(r, list) else [r])
+    new.body = body
     if not tr.n:
         return None
     ast.fix_missing_locations(new)
